@@ -142,6 +142,19 @@ def r25_3(ctx, rep):
         raise MechanismMissing(R, "fewer than 8 element stores found in XmlGenerator")
 
 
+@SPEC.rule(
+    "R25.4",
+    "literal values are rendered losslessly: exitPrimary and exitSymbol turn a node's .value into text only through str()/repr()/plain "
+    "placeholders — no format specification with a precision or numeric presentation type, no round()/int(), neither in "
+    "the handler nor in a helper it calls",
+)
+def r25_4(ctx, rep):
+    from ._literal import literal_rule
+
+    literal_rule(ctx, rep, "R25.4", XML, "XmlGenerator", ['exitPrimary', 'exitSymbol'],
+                 "a literal operand / start / value item is written through a lossy conversion, so the document no longer mirrors the flat model's literal")
+
+
 # -- seeded variants ---------------------------------------------------------
 from ._mut import replace_in_func  # noqa: E402
 
@@ -192,3 +205,16 @@ def _m4(mod):
         return False
 
     return mod if replace_in_func(mod, "XmlGenerator.exitComponentRef", edit) else None
+
+
+@SPEC.mutant("literal operands written with %g", XML, "R25.4", "lossless")
+def _m_lit(mod):
+    def edit(fn):
+        for n in ast.walk(fn):
+            if isinstance(n, ast.Call) and is_name(n.func, "str") and n.args and isinstance(n.args[0], ast.Attribute) and n.args[0].attr == "value":
+                new = ast.BinOp(left=ast.Constant(value="%g"), op=ast.Mod(), right=n.args[0])
+                n.func, n.args = ast.Name(id="str", ctx=ast.Load()), [new]
+                return True
+        return False
+
+    return mod if replace_in_func(mod, "XmlGenerator.exitPrimary", edit) else None
